@@ -234,14 +234,20 @@ LockGrant(c) ==
     /\ Commit(IssueOn(St, c, callers[c].e))
 
 \* the task created by _async_endpoint_changed runs reconnect_soon
-\* (assumed not to run between the arrival of a response of the connect sequence and its processing: the code would
-\* then find connection.enc_ctx = None where it expects the session it has just set up)
-ConnectResponseUnprocessed == \E c \in Callers : callers[c].pc \in {"info", "resub"} /\ callers[c].q = "flight" /\ callers[c].w = "ok"
 BgRun ==
-    /\ bg > 0 /\ ~ConnectResponseUnprocessed
+    /\ bg > 0
     /\ Commit(Emit([Disconnect(St, 0) EXCEPT !.bg = bg - 1], [ev |-> "bg", ok |-> TRUE]))
 
 \* ------------------------------------------------------------------ environment
+\* Input that reaches the event loop through its selector / timers (responses, time-outs, accessory events, zeroconf
+\* updates) is processed when no task is runnable: asyncio polls for I/O only after the callbacks that were ready
+\* have run.  API calls and cancellations come from other tasks and can land between any two steps.
+Runnable(c) == \/ callers[c].w # "none"
+               \/ callers[c].q = "queued" /\ Head(sess[callers[c].e].lockq) = c
+Quiet == bg = 0 /\ \A c \in Callers : ~Runnable(c)
+\* close() / shutdown() are assumed not to be called in the very loop iteration in which a response of a connect in
+\* progress is delivered (the code would find connection.enc_ctx = None where it expects the session it just set up)
+ConnectResponseUnprocessed == \E c \in Callers : callers[c].pc \in {"info", "resub"} /\ callers[c].q = "flight" /\ callers[c].w = "ok"
 IdChoices(api) == IF api \in CloseApis THEN {{}}
                   ELSE IF Obs \/ api \in {"sub", "unsub"} THEN (SUBSET Chars) \ {{}}
                   ELSE {{CHOOSE i \in Chars : TRUE}}
@@ -250,6 +256,7 @@ Apis == {"get", "put", "sub", "unsub", "close", "shutdown"}
 \* an API call: its synchronous prefix (up to the first suspension)
 Call(c, api, ids) ==
     /\ callers[c].pc = "idle" /\ ~shutdownF /\ api \in Apis /\ ids \in IdChoices(api)
+    /\ api \in CloseApis => ~ConnectResponseUnprocessed
     /\ MaxReq = 0 \/ nreq < MaxReq
     /\ MaxCtx = 0 \/ Len(ctxs) < MaxCtx \/ Connected \/ fut # 0
     /\ LET S0 == [St EXCEPT !.callers[c] = [Idle EXCEPT !.api = api, !.ids = ids, !.pc = "call"],
@@ -261,14 +268,14 @@ RspKinds(c) == IF callers[c].pc \in {"m1", "m3"} THEN {"ok", "err", "neterr"} EL
 CtxOf(c) == IF callers[c].pc \in {"m1", "m3"} THEN callers[c].x ELSE sess[callers[c].e].x
 \* the accessory / the network answers the outstanding request of c
 Rsp(c, how) ==
-    /\ InFlight(c) /\ callers[c].w = "none" /\ how \in RspKinds(c)
+    /\ Quiet /\ InFlight(c) /\ callers[c].w = "none" /\ how \in RspKinds(c)
     /\ ~ctxs[CtxOf(c)].shut
     /\ callers' = [callers EXCEPT ![c].w = how]
     /\ out' = << >>
     /\ UNCHANGED <<ctxs, sess, cur, fut, wanted, addr, descr, shutdownF, nreq, bg, closedClean>>
 \* the 8 s / 16 s budget of the request expires
 Timeout(c) ==
-    /\ InFlight(c) /\ callers[c].w = "none"
+    /\ Quiet /\ InFlight(c) /\ callers[c].w = "none"
     /\ callers' = [callers EXCEPT ![c].w = "tmo"]
     /\ out' = << >>
     /\ UNCHANGED <<ctxs, sess, cur, fut, wanted, addr, descr, shutdownF, nreq, bg, closedClean>>
@@ -285,7 +292,7 @@ Cancel(c) ==
     /\ UNCHANGED <<ctxs, sess, cur, fut, wanted, addr, descr, shutdownF, nreq, bg, closedClean>>
 \* zeroconf: the pairing is told a description with address a
 Descr(a) ==
-    /\ a \in Addrs /\ ~shutdownF
+    /\ Quiet /\ a \in Addrs /\ ~shutdownF
     /\ IF descr = a THEN UNCHANGED <<addr, descr, bg>>
        ELSE /\ bg < MaxBg
             /\ descr' = a /\ addr' = a /\ bg' = bg + 1          \* _async_endpoint_changed
@@ -296,7 +303,7 @@ Descr(a) ==
 \* delivered to the listeners iff it opens under the current event key with the next counter
 EventOk(key, k) == key = "cur" /\ k = sess[cur].evc
 Event(key, k) ==
-    /\ Connected /\ ctxs[sess[cur].x].res
+    /\ Quiet /\ Connected /\ ctxs[sess[cur].x].res
     /\ key \in {"cur", "old", "wrong"}
     /\ sess' = IF EventOk(key, k) THEN [sess EXCEPT ![cur].evc = @ + 1] ELSE sess
     /\ out' = << >>
@@ -359,11 +366,12 @@ AfterCloseNoContext == closedClean => LiveCtx = {}
 DeadNeverUsed ==
     [][\A e \in 1..Len(sess) : /\ sess[e].dead => (sess'[e].dead /\ sess'[e].sent = sess[e].sent)
                                /\ sess'[e].sent \in {sess[e].sent, sess[e].sent + 1}]_vars
-\* a new session starts with all counters at zero, and only a completed pair-verify creates one
+\* a new session starts with all counters at zero (the step that creates it also seals the database request, with
+\* nonce 0), and only a completed pair-verify creates one
 FreshSessions ==
     [][Len(sess') > Len(sess) =>
          /\ Len(sess') = Len(sess) + 1
-         /\ sess'[Len(sess')].sent = 0 /\ sess'[Len(sess')].evc = 0 /\ sess'[Len(sess')].reg = {}
+         /\ sess'[Len(sess')].sent <= 1 /\ sess'[Len(sess')].evc = 0 /\ sess'[Len(sess')].reg = {}
          /\ \E c \in Callers : callers[c].pc = "m3" /\ callers[c].w = "ok" /\ callers'[c].pc = "info"]_vars
 \* listeners only ever see an event sealed under the current event key with the next counter
 EventsInOrder ==
